@@ -8,4 +8,6 @@ MCClsMix == [o \in Oids |-> CASE o % 5 = 0 -> "plain" [] o % 5 = 1 -> "merge" []
 NoRefs == {{}}
 FewRefs == {{}, {1} \cap Oids, {0, 2} \cap Oids}
 AllRefs == SUBSET Oids
+FewRefs2 == {{}, {1} \cap Oids, {2} \cap Oids, {1, 3} \cap Oids, {2, 3} \cap Oids}
+RefsNoRoot == SUBSET (Oids \ {0})
 =============================================================================
